@@ -1116,6 +1116,7 @@ def c04(tier, rng, fam='C04'):
                 b.step('send', c=1, pay='x').step('close', c=1).step('hdr', c=1).step('recv', c=1, n=2).step('trl', c=1)
             out.append(b.q().done())
     out += concurrent_header_and_send(fam, 10 if tier == 'quick' else 200)
+    out += same_key_other_case(fam, 9 if tier == 'quick' else 90)
     return out
 
 
@@ -1628,5 +1629,37 @@ def unencodable_elsewhere(fam):
                 b.step('sopen', c=1, kind=kind, hp=hp)
                 b.step('send', c=1, pay='go').step('close', c=1).step('recv', c=1, n=3)
                 b.step('ucall', c=2, pay='probe', hp=[ret(pay='fine')])
+                out.append(b.q().done())
+    return out
+
+
+def same_key_other_case(fam, reps):
+    """successive SetHeader / SetTrailer calls that name the same key in different letter case: after lower-casing it is
+    one key, and its values arrive in call order (Go's map iteration decides what a careless merge does: several runs)"""
+    out = []
+    for rep in range(reps):
+        for kind in ('unary', 'bidi', 'ss'):
+            for way in ('sendhdr', 'firstmsg', 'trailer'):
+                if kind == 'unary' and way == 'firstmsg':
+                    continue
+                k1, k2, k3 = [('Ab-C', 'ab-c', 'AB-c'), ('o', 'O', 'o'), ('X-Key-bin', 'x-key-BIN', 'x-key-bin')][rep % 3]
+                h1, h2, h3 = [[k1, 'v1'], [k1, 'v2']], [[k2, 'v3']], [[k3, 'v4'], [k3, 'v5']]
+                t1, t2 = [[k2, 't1']], [[k1, 't2'], [k1, 't3']]
+                b = B(fam, '%s: one key in several letter cases over successive calls, headers via %s #%d' % (kind, way, rep), ser=bool(rep % 2))
+                hp = [dict(o='sethdr', md=h1), dict(o='sethdr', md=h2)]
+                if kind == 'unary':
+                    hp += [dict(o='sendhdr' if way == 'sendhdr' else 'sethdr', md=h3), dict(o='settrl', md=t1), dict(o='settrl', md=t2), ret(pay='rep')]
+                    b.step('ucall', c=1, pay='q', md=[[k2, 'r1'], [k2, 'r2']], hp=hp)
+                else:
+                    hp = [dict(o='drain')] + hp
+                    if way == 'sendhdr':
+                        hp += [dict(o='sendhdr', md=h3), dict(o='send', pay='m0')]
+                    elif way == 'firstmsg':
+                        hp += [dict(o='sethdr', md=h3), dict(o='send', pay='m0')]
+                    else:
+                        hp += [dict(o='sethdr', md=h3)]
+                    hp += [dict(o='settrl', md=t1), dict(o='settrl', md=t2), ret()]
+                    b.step('sopen', c=1, kind=kind, md=[[k2, 'r1'], [k2, 'r2']], hp=hp)
+                    b.step('send', c=1, pay='x').step('close', c=1).step('hdr', c=1).step('recv', c=1, n=2).step('trl', c=1)
                 out.append(b.q().done())
     return out
